@@ -112,9 +112,18 @@ Definition leaf_eqb (a b : leaf) : bool :=
   | _, _ => false
   end.
 
+(* One systematic collision of the generated hashes is modelled: TypedValue(c)
+   hashes (c, False) and KnownValue(o) hashes (type(o), o), so they collide when
+   type(o) is c and o == 0 (hash(False) = hash(0)). *)
+Definition typed_known_collide (c : N) (lit : bool) (o : obj) : bool :=
+  negb lit && N.eqb (class_of o) c && hashable o &&
+  match num o with Some (0%Z, 0%Z) => true | _ => false end.
+
 Definition leaf_heqb (a b : leaf) : bool :=
   match a, b with
   | (LKnown o | LKnownTV o), (LKnown o' | LKnownTV o') => literal_heq o o'
+  | LTyped c l, (LKnown o | LKnownTV o) => typed_known_collide c l o
+  | (LKnown o | LKnownTV o), LTyped c l => typed_known_collide c l o
   | _, _ => leaf_eqb a b
   end.
 
@@ -258,3 +267,41 @@ Definition equiv_onb (E : val -> val -> bool) (S : list val) : bool :=
   forallb (fun x => E x x) S &&
   forallb (fun x => forallb (fun y => implb (E x y) (E y x)) S) S &&
   forallb (fun x => forallb (fun y => forallb (fun z => implb (E x y && E y z) (E x z)) S) S) S.
+
+(* ---- classification of the operands (guard clauses of the known findings) ---- *)
+Fixpoint subterms (v : val) : list val :=
+  v :: match v with
+       | VLeaf _ => []
+       | VNode _ k => flat_map subterms k
+       | VUnion k => flat_map subterms k
+       end.
+
+(* "values that compare equal hash equal", checked on a finite list *)
+Definition hash_consistent (n : nat) (S : list val) : bool :=
+  forallb (fun x => forallb (fun y => implb (veq_f n x y) (heq x y)) S) S.
+
+Fixpoint has_unhashable_literal (v : val) : bool :=
+  match v with
+  | VLeaf (LKnown o) | VLeaf (LKnownTV o) => negb (hashable o)
+  | VLeaf _ => false
+  | VNode _ k => existsb has_unhashable_literal k
+  | VUnion k => existsb has_unhashable_literal k
+  end.
+
+Fixpoint has_annotated_unreachable (v : val) : bool :=
+  match v with
+  | VLeaf _ => false
+  | VNode (TAnnot md) [y] => is_unreachable y || has_annotated_unreachable y
+  | VNode _ k => existsb has_annotated_unreachable k
+  | VUnion k => existsb has_annotated_unreachable k
+  end.
+
+(* an AnnotatedValue directly around an AnnotatedValue (only the constructor,
+   never annotate_value, builds these) *)
+Fixpoint has_nested_annot (v : val) : bool :=
+  match v with
+  | VLeaf _ => false
+  | VNode (TAnnot _) [VNode (TAnnot _) _] => true
+  | VNode _ k => existsb has_nested_annot k
+  | VUnion k => existsb has_nested_annot k
+  end.
